@@ -47,9 +47,17 @@ impl ServerCfg {
         let server = tokio::sync::Mutex::new(self.build_with(prev));
         let kind_name = |k: &OmahaResponse| match k { OmahaResponse::NoUpdate => "NoUpdate", OmahaResponse::Update => "Update", OmahaResponse::UrgentUpdate => "UrgentUpdate",
             OmahaResponse::InvalidResponse => "InvalidResponse", OmahaResponse::InvalidURL => "InvalidURL" };
-        let body: serde_json::Map<String, serde_json::Value> = self.resp.iter().map(|(id, _, k, ad, ver, coh, cb, pkg)| (id.clone(), serde_json::json!({
-            "response": kind_name(k), "check_assertion": if *ad { "UpdatesDisabled" } else { "UpdatesEnabled" }, "version": ver, "cohort_assertion": coh,
-            "codebase": cb, "package_name": pkg }))).collect();
+        // absent assertions are left out of the JSON (as a hand-written configuration would), not written as null
+        let body: serde_json::Map<String, serde_json::Value> = self.resp.iter().map(|(id, _, k, ad, ver, coh, cb, pkg)| {
+            let mut m = serde_json::Map::new();
+            m.insert("response".into(), kind_name(k).into());
+            m.insert("check_assertion".into(), (if *ad { "UpdatesDisabled" } else { "UpdatesEnabled" }).into());
+            if let Some(v) = ver { m.insert("version".into(), v.clone().into()); }
+            if let Some(c) = coh { m.insert("cohort_assertion".into(), c.clone().into()); }
+            m.insert("codebase".into(), cb.clone().into());
+            m.insert("package_name".into(), pkg.clone().into());
+            (id.clone(), serde_json::Value::Object(m))
+        }).collect();
         let req = hyper::Request::builder().method("POST").uri("/set_responses_by_appid").body(hyper::Body::from(serde_json::to_vec(&body).unwrap())).unwrap();
         let r = block_on(mock_omaha_server::handle_request(req, &server)).expect("set_responses");
         assert_eq!(r.status(), http::StatusCode::OK);
